@@ -34,6 +34,7 @@ otag = z3.Function('otag', z3.IntSort(), z3.IntSort())   # runtime class of a he
 truthy_any = z3.Function('truthy_any', Ref, z3.BoolSort())   # truthiness of an opaque value
 pow_real = z3.Function('pow_real', z3.RealSort(), z3.IntSort(), z3.RealSort())  # b ** k, uninterpreted (P1)
 _nonobj_id = z3.Function('id_nonobj', Ref, z3.IntSort())
+born = z3.Function('born', Ref, z3.IntSort())   # allocation stamp: r is allocated in a state iff born(r) < state.now
 
 
 def obj_id(r):
